@@ -454,6 +454,21 @@ def main():
                     upairs.add(('::'.join(c.qual), name))
                     stats['pairs'] += 1
     emit('#endif', False)
+    emit('#ifdef VF_GEN_UFIELDS', False)
+    useen = set()
+    for k in sorted(pdus, key=lambda k: (len(ancestors(k)), '::'.join(k.qual))):
+        if k.pure or not ((not k.pure) and (k.public_ctor or not k.any_ctor)) or not (k.has_default_ctor or not k.any_ctor):
+            continue
+        q = '::'.join(k.qual)
+        chain = [k] + [a for a in ancestors(k) if a is not pdu]
+        for c in chain:
+            gn = dict((n, r) for (r, n) in c.getters)
+            for (name, at) in c.setters:
+                key = ('::'.join(c.qual), name)
+                if name in gn and key not in useen:
+                    useen.add(key)
+                    emit('VF_UFIELD(%s, %s, %s, %s, %s)' % (q, k.name, name, '::'.join(c.qual), c.name))
+    emit('#endif', False)
     stats['unique_pairs'] = len(upairs)
     emit('// stats ' + json.dumps(stats), False)
     with open(outp, 'w') as f:
